@@ -151,6 +151,16 @@ def run(chk: core.Check):
             chk.fail(f"an operation failed or errored but the phase is reported {phase}", sc)
     chk.stages["complete_runs"] = {"runs": len(records), "lost": lost}
 
+    # ---- (a') the consumer's exit condition, sub-step by sub-step: a failure must not be lost with the last events of a worker
+    def judge(sc, r):
+        bad = any(k in ("fail", "err") for k in sc["kinds"])
+        phase = [e for e in r["events"] if event_kind(e) == "PhaseFinished" and e.phase.name.name == "FUZZING"][0].status.name
+        if bad and phase not in ("FAILURE", "ERROR"):
+            return f"an operation failed or errored but the phase is reported {phase} (exit-condition race search)"
+        return None
+
+    chk.stages["exit_condition_race_search"] = U.race_search(chk, (9 if quick else 60) * (3 if chk.broken else 1), judge)
+
     # ---- (b) the ladder, arm by arm
     cases = ladder_cases()
     exprs = [f"ladder {cls} {c_flags(**{'errors': fl.get('errors', 0)})}" for cls, _, _, fl in cases]
